@@ -235,10 +235,11 @@ def replayable(scn, desc):
             "params": scn.params, "model_request": req}
 
 
-CLI_FORMS = ["none", "layout_keys_after", "layout_keys_before", "gpg_after", "gpg_before", "verification_keys_more"]
+CLI_FORMS = ["none", "layout_keys_after", "layout_keys_before", "gpg_after", "gpg_before", "verification_keys_more",
+             "layout_keys_more_than_types", "layout_keys_more_than_types"]
 
 
-def cli_case(case_seed, res):
+def cli_case(case_seed, res, force_form=None):
     """The gate at the command line. `in-toto-verify` takes verifier keys through three options (--verification-keys,
     the deprecated --layout-keys, --gpg): every key passed through any of them is a supplied key. An honest, unexpired
     one-step chain whose layout is signed by its owners is verified with the owners' keys passed through
@@ -248,13 +249,14 @@ def cli_case(case_seed, res):
     from harness import cli
     from harness.props import c18
     rng = random.Random(case_seed)
-    form = rng.choice(CLI_FORMS)
+    form = force_form or rng.choice(CLI_FORMS)
     if form.startswith("gpg") and not W.gpg_available():
         form = "layout_keys_after"
     root = scen.new_root()
     cwd = os.getcwd()
     try:
-        ch = scen.gen_chain(rng, root, n_steps=1, n_insp=0, thresholds=(1,), max_funcs=1, fmt_mode="mixed")
+        forced_owner = [[k for k in W.pool() if k.kind == "rsa"][0]] if form == "layout_keys_more_than_types" else None
+        ch = scen.gen_chain(rng, root, n_steps=1, n_insp=0, thresholds=(1,), max_funcs=1, fmt_mode="mixed", owners=forced_owner)
         scn = scen.build(ch, root, rng)
         scn.materialise(root)
         owners = [k for k in W.pool() if k.keyid in scn.keys]
@@ -264,7 +266,17 @@ def cli_case(case_seed, res):
         if not rsa and form.startswith("layout_keys"):
             form = "verification_keys_more"
         stranger = rsa[0] if rsa else [k for k in W.pool() if k not in ch.owners][0]
-        if form == "none":
+        if form == "layout_keys_more_than_types":
+            # the deprecated option with an explicit type list that is shorter than the key list: the surplus key is a
+            # supplied key all the same (on the pinned tree the mismatch itself is refused)
+            rsa_owner = [k for k in owners if k.kind == "rsa"]
+            if rsa and rsa_owner and len(owners) == 1:
+                argv += ["--layout-keys", c18.write_pub_pem(rsa_owner[0], root), c18.write_pub_pem(stranger, root), "--key-types", "rsa"]
+            else:
+                form = "verification_keys_more"
+        if form == "layout_keys_more_than_types":
+            pass
+        elif form == "none":
             argv += own
         elif form == "verification_keys_more":
             argv += own + [c18.write_pub_pem(stranger, root)]
@@ -291,6 +303,53 @@ def cli_case(case_seed, res):
                                          "on the layout: every supplied key must have a valid signature" % form, "status": st})
     elif expect_ok and not ok:
         res.fail("disagree", case, {"op": "cli_keys", "why": "honest, correctly signed, unexpired chain rejected at the command line", "status": st})
+
+
+def layout_keys_types_case(res, prop="C01"):
+    """`--layout-keys` (the deprecated key format, whose loader derives its own key ids) with an explicit `--key-types`
+    list: control - one key, one type, layout signed under the derived id: status 0; then a second key that did not sign
+    is added while the type list stays at one entry. Whatever the tool makes of the mismatch, the surplus key is a
+    supplied key without a signature: not a success. Both formats."""
+    from securesystemslib import interface
+    from securesystemslib.signer import CryptoSigner, SSlibKey
+    from cryptography.hazmat.primitives.serialization import load_pem_private_key
+    from in_toto.models.layout import Layout
+    from in_toto.models.metadata import Metablock, Envelope
+    from harness import cli, cliequiv
+    from harness.props import c18
+    rsa = [k for k in W.pool() if k.kind == "rsa"]
+    owner, stranger = rsa[0], rsa[1]
+    root = scen.new_root()
+    cwd = os.getcwd()
+    try:
+        os.chdir(root)
+        opub, spub = c18.write_pub_pem(owner, root), c18.write_pub_pem(stranger, root)
+        (kid, kd), = interface.import_publickeys_from_file([opub], ["rsa"]).items()
+        priv = load_pem_private_key(open(cliequiv.priv_path(owner), "rb").read(), None)
+        signer = CryptoSigner(priv, SSlibKey.from_dict(kid, dict(kd)))
+        for fmt in ("metablock", "dsse"):
+            lay = Layout(expires="2031-01-01T00:00:00Z")
+            md = Envelope.from_signable(lay) if fmt == "dsse" else Metablock(signed=lay)
+            md.create_signature(signer)
+            path = os.path.join(root, "l-%s.layout" % fmt)
+            md.dump(path)
+            for label, argv, want_ok in (("one key, one type", ["-l", path, "--layout-keys", opub, "--key-types", "rsa"], True),
+                                         ("two keys, two types", ["-l", path, "--layout-keys", opub, spub, "--key-types", "rsa", "rsa"], False),
+                                         ("two keys, one type", ["-l", path, "--layout-keys", opub, spub, "--key-types", "rsa"], False),
+                                         ("two keys (the signer last), one type", ["-l", path, "--layout-keys", spub, opub, "--key-types", "rsa"], False)):
+                st = cli.run_main("in_toto_verify", argv)[0]
+                ok = (st == 0) == want_ok
+                case = {"op": "cli_layout_keys_types", "format": fmt, "invocation": label}
+                res.case(dict(case, status=st), True, ok, sample_cap=1)
+                res.count("cli_layout_keys_types")
+                if st == 0 and not want_ok:
+                    res.fail("oracle", case, {"why": "in-toto-verify exited 0 although a key passed with --layout-keys has no signature on the layout (%s)" % label,
+                                              "status": st})
+                elif st != 0 and want_ok:
+                    res.fail("disagree", case, {"op": "cli_layout_keys_types", "why": "control rejected: layout signed under the id the deprecated loader derives", "status": st})
+    finally:
+        os.chdir(cwd)
+        scen.drop_root(root)
 
 
 def surrogate_case(case_seed, res):
@@ -333,6 +392,8 @@ FAMILIES = ["keys", "expiry", "leaf", "leaf", "parse_equal", "sig", "honest"]
 def shard(seed, idx, n, tier):
     res = core.Result()
     rng = core.rng_for(seed, "c01", idx)
+    if idx == 0:
+        layout_keys_types_case(res)
     for j in range(n):
         fam = FAMILIES[(idx + j) % len(FAMILIES)]
         one_case(rng, fam, tier, res)
